@@ -375,6 +375,54 @@ def run_net_inversion_probe(sh):
     G.unload(mod)
 
 
+LONGCHAIN_SRC = """
+from pymtl3 import *
+RUNS = {}
+class LInc(Component):
+  def construct(s, k):
+    s.in_ = InPort(16); s.out = OutPort(16)
+    @update
+    def up_inc():
+      RUNS[k] = RUNS.get(k, 0) + 1
+      s.out @= s.in_ + 1
+class LChain(Component):
+  def construct(s, n):
+    s.in_ = InPort(16); s.out = OutPort(16)
+    s.incs = [LInc(k) for k in range(n)]
+    s.incs[0].in_ //= s.in_
+    for k in range(1, n): s.incs[k].in_ //= s.incs[k - 1].out
+    s.out //= s.incs[n - 1].out
+"""
+
+
+def run_long_chain(sh):
+  """a LONG schedule (a chain of 260-700 small components: more than 512, more than 1024 blocks and net steps per pass): every block
+  runs exactly once per combinational pass and the value arrives at the end of the chain, under every pass group"""
+  rng = sh.rng("longchain")
+  mod = G.load_source(LONGCHAIN_SRC, "c02long")
+  try:
+    for n in (rng.randrange(258, 300), rng.randrange(520, 700)):
+      for mode in ("unroll", "heutopo", "mamba", "default", "simple"):
+        top = mod.LChain(n)
+        try: simmon.apply_mode(top, mode, rng)
+        except Exception as e:
+          sh.inconclusive("long-chain-harness:" + type(e).__name__); return
+        for v in (5, 60000):
+          mod.RUNS.clear(); top.in_ @= v; top.sim_eval_combinational()
+          sh.count("long_schedule_passes_checked"); sh.count("passes_checked")
+          bad = {k: mod.RUNS.get(k, 0) for k in range(n) if mod.RUNS.get(k, 0) != 1}
+          if bad or int(top.out) != (v + n) & 0xffff:
+            sh.violation("block-not-executed-exactly-once-in-a-long-schedule", {"mode": mode, "components": n, "blocks_not_run_exactly_once(k: runs)": dict(list(bad.items())[:6]),
+                         "out": int(top.out), "expected": (v + n) & 0xffff}, case=("longchain", mode, n)); return
+          mod.RUNS.clear(); top.sim_tick()
+          # sim_tick evaluates the combinational schedule once or twice (pass-group dependent): every block the same number of times
+          cnts = {mod.RUNS.get(k, 0) for k in range(n)}
+          if len(cnts) != 1 or 0 in cnts:
+            sh.violation("blocks-executed-a-different-number-of-times-in-one-tick", {"mode": mode, "components": n, "distinct_run_counts": sorted(cnts)}, case=("longchain-tick", mode, n)); return
+  finally:
+    G.unload(mod)
+
+
 CHAIN_SRC = '''
 from pymtl3 import *
 class ChainTop(Component):
@@ -689,4 +737,5 @@ def run_shard(sh):
     check_chained(sh, rng)
     check_constraints_after_replace(sh, rng)
     if sh.idx == 1: run_net_inversion_probe(sh)
+    if sh.idx == 2: run_long_chain(sh)
     for oc in range(3 if sh.tier == 'quick' else 30): run_openloop_methods(sh, sh.idx * 100 + oc)
